@@ -17,6 +17,7 @@ import (
 	"path/filepath"
 	"runtime"
 	"sort"
+	"regexp"
 	"strconv"
 	"strings"
 	"sync"
@@ -84,6 +85,9 @@ type Known struct {
 	// MinCost: the entry covers the finding only when its cheapest witness needs at
 	// least this many preemptions (a cheaper witness is a different, unlisted violation).
 	MinCost int `json:"min_cost,omitempty"`
+	// FingerprintPattern (instead of an exact Fingerprint): a regular expression the whole fingerprint has to
+	// match; used where one call-site pair fails under a family of action sets that differ by bystander actions.
+	FingerprintPattern string `json:"fingerprint_pattern,omitempty"`
 }
 
 func goEnv() []string {
@@ -515,7 +519,16 @@ func loadKnown() []Known {
 
 func matchKnown(ks []Known, prop, fp string, cost int) *Known {
 	for i := range ks {
-		if ks[i].Status == "known" && ks[i].Property == prop && ks[i].Fingerprint == fp && cost >= ks[i].MinCost {
+		if ks[i].Status != "known" || ks[i].Property != prop || cost < ks[i].MinCost {
+			continue
+		}
+		if ks[i].FingerprintPattern != "" {
+			if re, err := regexp.Compile("^(?:" + ks[i].FingerprintPattern + ")$"); err == nil && re.MatchString(fp) {
+				return &ks[i]
+			}
+			continue
+		}
+		if ks[i].Fingerprint == fp {
 			return &ks[i]
 		}
 	}
